@@ -20,9 +20,10 @@ class Undecided(Exception):
 
 
 class D:
-    __slots__ = ("m", "h", "op", "args")
+    __slots__ = ("m", "h", "op", "args", "fi")
 
     def __init__(self, m: int, h: int, op: str = "in", args: tuple = ()):
+        self.fi = None        # (sign, culprits) of vlib/indic_finite.py, computed on demand
         self.m = m
         self.h = h
         self.op = op          # operator name ("in" = raw candle input: args = (tag, candle index, column))
@@ -90,9 +91,14 @@ BIN = {
 
 def binop(op: str, a, b):
     if isinstance(a, D) or isinstance(b, D):
-        # x * 0 carries no dependence (NaN/inf inputs aside - stated assumption)
+        # x * 0 carries no dependence - unless x may be infinite / NaN on valid candles (0 * inf = NaN): then the product
+        # still depends on x
         if op == "mul" and ((not isinstance(a, D) and a == 0) or (not isinstance(b, D) and b == 0)):
-            return 0.0
+            from .indic_finite import may_be_nonfinite
+            x = a if isinstance(a, D) else b
+            if not may_be_nonfinite(x):
+                return 0.0
+            return mk("mul", x, 0.0)
         if op in ("and",) and ((a is False) or (b is False)):
             return False
         if op in ("or",) and ((a is True) or (b is True)):
@@ -341,6 +347,8 @@ def eval_dag(root, inputs) -> float:
                 v = vals[1] if vals[0] else vals[2]
             elif op in ("phi1",):
                 v = vals[1]
+            elif op == "dep":
+                v = vals[0]
             elif op == "phi_none":
                 v = None if vals[0] else vals[1]
             elif op in ("argmax", "argmin", "std", "nanstd", "var", "median"):
